@@ -47,6 +47,12 @@ type bgLine struct {
 
 // Obl is one proof obligation: under the background visible at creation and Guard, Goal must hold.
 type Obl struct {
+	// CutGuard: a path-condition constant that the proof is first attempted without (context-free attempt: the
+	// obligation is then the same formula for every occurrence of the same code shape and shares one answer);
+	// when that attempt does not succeed the obligation is decided with its full context
+	CutGuard   string
+	CutSyms    []string // further constants (values of the loop's variables at entry) left unconstrained in that attempt
+	useCut     bool
 	OpaqueSpec bool // VarintEnd/VarintVal are left uninterpreted in this query
 	Name   string
 	Kind   string
@@ -197,11 +203,21 @@ func symsOf(t string) []string { return symRe.FindAllString(t, -1) }
 
 // slice returns the background lines in the cone of influence of the given terms, restricted to bg[:ndecl].
 // Dropping lines only removes hypotheses, so slicing can never make a false goal provable.
-func (c *Ctx) slice(ndecl int, terms ...string) []string {
+func (c *Ctx) slice(ndecl int, terms ...string) []string { return c.sliceCut(ndecl, "", terms...) }
+
+// sliceCut: as slice, but the symbol cut (a path-condition constant) is left unconstrained: its defining equation and
+// the assumptions guarded by it are not included, so the query no longer depends on how that program point was reached
+func (c *Ctx) sliceCut(ndecl int, cut string, terms ...string) []string {
 	c.mu.Lock()
 	c.buildIndex()
 	c.mu.Unlock()
-	return c.sliceIndexed(ndecl, terms...)
+	cuts := map[string]bool{}
+	for _, s := range strings.Split(cut, " ") {
+		if s != "" {
+			cuts[s] = true
+		}
+	}
+	return c.sliceIndexed(ndecl, cuts, terms...)
 }
 
 func (c *Ctx) buildIndex() {
@@ -229,7 +245,7 @@ func (c *Ctx) buildIndex() {
 	c.indexed = len(c.bg)
 }
 
-func (c *Ctx) sliceIndexed(ndecl int, terms ...string) []string {
+func (c *Ctx) sliceIndexed(ndecl int, cuts map[string]bool, terms ...string) []string {
 	in := make([]bool, ndecl)
 	cone := map[string]bool{}
 	var work []string
@@ -254,6 +270,9 @@ func (c *Ctx) sliceIndexed(ndecl int, terms ...string) []string {
 		s := work[len(work)-1]
 		work = work[:len(work)-1]
 		for _, i := range c.defIdx[s] {
+			if cuts[s] && c.bg[i].kind != 'd' {
+				continue
+			}
 			if i < ndecl && !in[i] {
 				in[i] = true
 				cur = s + " [def] " + c.bg[i].text
@@ -263,6 +282,9 @@ func (c *Ctx) sliceIndexed(ndecl int, terms ...string) []string {
 			}
 		}
 		for _, i := range c.uses[s] {
+			if cuts[s] {
+				continue
+			}
 			if i < ndecl && !in[i] {
 				in[i] = true
 				cur = s + " [assumption] " + c.bg[i].text
@@ -367,7 +389,11 @@ func (o *Obl) script(extra string) string {
 	if pre == "" {
 		pre = "true"
 	}
-	for _, l := range c.slice(o.NDecl, pre, o.Guard, o.Goal, extra) {
+	cutSym := ""
+	if o.useCut {
+		cutSym = o.CutGuard + " " + strings.Join(o.CutSyms, " ")
+	}
+	for _, l := range c.sliceCut(o.NDecl, cutSym, pre, o.Guard, o.Goal, extra) {
 		sb.WriteString(l)
 		sb.WriteByte('\n')
 	}
@@ -481,8 +507,8 @@ func solveOne(o *Obl, timeoutS int) Result {
 	race := solvers
 	if !strings.Contains(script, "(forall ") && !strings.Contains(script, "(exists ") {
 		first := timeoutS
-		if first > 6 {
-			first = 6 // a short first attempt; what z3-new cannot do quickly is raced on all back ends with the full timeout
+		if first > 12 {
+			first = 12 // a first attempt on one back end; what z3-new cannot do in that time is raced on all back ends with the full timeout (a shorter first attempt made loaded machines race — and thrash — on queries that need 5-8 s under load)
 		}
 		res, rest, d := runSolver(solvers[0], script, first)
 		total += d
@@ -553,6 +579,70 @@ func canonical(script string) string {
 
 func solveAll(obls []*Obl, timeoutS int, workers int) []Result {
 	res := make([]Result, len(obls))
+	// context-free attempt for obligations that name a cut point: one proof per distinct code shape
+	done := make([]bool, len(obls))
+	{
+		type grp struct {
+			rep     int
+			members []int
+		}
+		var mu sync.Mutex
+		groups := map[[32]byte]*grp{}
+		var wg sync.WaitGroup
+		sem := make(chan struct{}, workers)
+		for i, o := range obls {
+			if o.CutGuard == "" || o.Expect == "sat" || !genSymRe.MatchString(o.CutGuard) || strings.ContainsAny(o.CutGuard, " ()") {
+				continue
+			}
+			wg.Add(1)
+			sem <- struct{}{}
+			go func(i int, o *Obl) {
+				defer wg.Done()
+				defer func() { <-sem }()
+				oc := *o
+				oc.useCut = true
+				k := sha256.Sum256([]byte(canonical(oc.script(""))))
+				mu.Lock()
+				if g, ok := groups[k]; ok {
+					g.members = append(g.members, i)
+				} else {
+					groups[k] = &grp{rep: i, members: []int{i}}
+				}
+				mu.Unlock()
+			}(i, o)
+		}
+		wg.Wait()
+		var gl []*grp
+		for _, g := range groups {
+			gl = append(gl, g)
+		}
+		var wg2 sync.WaitGroup
+		sem2 := make(chan struct{}, workers)
+		for _, g := range gl {
+			wg2.Add(1)
+			sem2 <- struct{}{}
+			go func(g *grp) {
+				defer wg2.Done()
+				defer func() { <-sem2 }()
+				oc := *obls[g.rep]
+				oc.useCut = true
+				r := solveOne(&oc, timeoutS)
+				if r.Res != "unsat" {
+					return // decided with the full context below
+				}
+				for _, i := range g.members {
+					rr := Result{Obl: obls[i], Res: "unsat", Backend: r.Backend + " (context-free)", Shared: obls[g.rep].Name}
+					if i == g.rep {
+						rr.Dur = r.Dur
+						rr.Shared = ""
+					}
+					res[i] = rr
+					done[i] = true
+				}
+			}(g)
+		}
+		wg2.Wait()
+	}
 	// group alpha-equivalent queries
 	rep := make([]int, len(obls)) // representative index
 	groups := map[[32]byte]int{}
@@ -561,6 +651,9 @@ func solveAll(obls []*Obl, timeoutS int, workers int) []Result {
 		keys := make([][32]byte, len(obls))
 		sem := make(chan struct{}, workers)
 		for i := range obls {
+			if done[i] {
+				continue
+			}
 			wg.Add(1)
 			sem <- struct{}{}
 			go func(i int) {
@@ -571,6 +664,10 @@ func solveAll(obls []*Obl, timeoutS int, workers int) []Result {
 		}
 		wg.Wait()
 		for i := range obls {
+			if done[i] {
+				rep[i] = i
+				continue
+			}
 			if j, ok := groups[keys[i]]; ok {
 				rep[i] = j
 			} else {
@@ -591,7 +688,7 @@ func solveAll(obls []*Obl, timeoutS int, workers int) []Result {
 		}()
 	}
 	for i := range obls {
-		if rep[i] == i {
+		if rep[i] == i && !done[i] {
 			ch <- i
 		}
 	}
@@ -610,7 +707,7 @@ func solveAll(obls []*Obl, timeoutS int, workers int) []Result {
 		}()
 	}
 	for i := range obls {
-		if rep[i] == i {
+		if rep[i] == i || done[i] {
 			continue
 		}
 		r := res[rep[i]]
